@@ -343,6 +343,8 @@ def _assigned(body, blocks):
     for n in blocks:
         b = body.blocks[n]
         for a in b.stmts:
+            if a.dst.proj and a.dst.proj[0][0] == "deref":
+                continue  # a write THROUGH a reference changes the object it points to, not the local
             ls.add(a.dst.local)
         if b.term.kind == "call" and b.term.args["dst"] is not None:
             ls.add(b.term.args["dst"].local)
